@@ -9,7 +9,7 @@ want = set(sys.argv[1:])
 res_path = os.path.join(V, 'selftest/results.json')
 results = json.load(open(res_path)) if os.path.exists(res_path) else {}
 for m in idx:
-    if want and m['property'] not in want:
+    if want and m['property'] not in want and m['name'] not in want:
         continue
     name = m['name']
     w = tempfile.mkdtemp(prefix='mut.')
